@@ -8,9 +8,14 @@
 //!     w <as_s> <as_ns> <va_s> <va_ns> <bound> <drift> <status>   the writer publishes (real `ShmWriter::write`)
 //!     g <u16> | v <u16>          the generation / version word of the file is overwritten (a writer that died
 //!                                mid-update, a segment being re-initialised)
+//!     x <u16> <7 record ints>    the path is unlinked and a NEW file (another inode: version 1, that generation, that
+//!                                record) is put there — a runtime directory that was not preserved; the writer and every
+//!                                attached client keep the old inode, later opens and pokes get the new one
 //!     o | co                     (re)open the Rust client / the C context
 //!     q  <real_s> <real_ns> <mono_s> <mono_ns>    `ClockBoundClient::now()` on the long-lived client
 //!     cq <real_s> <real_ns> <mono_s> <mono_ns>    `clockbound_now()` on the long-lived C context
+//!     qn <N> <4 ints> | cqn <N> <4 ints>          the same call N times in a row (every-N-th-call behaviour): the last
+//!                                answer, then `rep same` iff all N answers (and clock-read logs) were identical
 //!   answer: one token group per op, joined by " ; ":
 //!     w | p | o ok | o <error> | q <clock ids read, in order> : <result> | q closed      (same with co / cq)
 use crate::rng::Rng;
@@ -61,6 +66,14 @@ pub fn exec(line: &str) -> String {
             }
             "g" => { poke_u16(&path, 14, parse_ints(&t[1..])[0] as u16); out.push("p".into()); }
             "v" => { poke_u16(&path, 12, parse_ints(&t[1..])[0] as u16); out.push("p".into()); }
+            "x" => {
+                let f = parse_ints(&t[1..]);
+                let _ = std::fs::remove_file(&path);
+                let mut b = crate::header::header_bytes(0x414D5A4E, 0x43420200, 72, 1, f[0] as u16);
+                b.extend_from_slice(&crate::header::record_bytes(&[f[1], f[2], f[3], f[4], f[5], f[6], 0, f[7]]));
+                std::fs::write(&path, &b).expect("x: write");
+                out.push("p".into());
+            }
             "o" => {
                 client = None;
                 let p2 = path.clone();
@@ -75,10 +88,13 @@ pub fn exec(line: &str) -> String {
                 c_open = a == "ok";
                 out.push(format!("co {}", a));
             }
-            "q" => {
-                let f = parse_ints(&t[1..]);
+            "q" | "qn" => {
+                let reps = if t[0] == "qn" { parse_ints(&t[1..2])[0].max(1) } else { 1 };
+                let f = parse_ints(if t[0] == "qn" { &t[2..] } else { &t[1..] });
+                let mut answers: Vec<String> = Vec::new();
+                for _ in 0..reps {
                 match client.as_mut() {
-                    None => out.push("q closed".into()),
+                    None => answers.push("q closed".into()),
                     Some(c) => {
                         // every clock the process can name reads 0 except the two the client is documented to use
                         for id in 0..16 { vclock::set(id, 0, 0); }
@@ -94,17 +110,31 @@ pub fn exec(line: &str) -> String {
                             Ok(Err(e)) => client_err_text(&e),
                             Err(_) => "panic".into(),
                         };
-                        out.push(format!("q {} : {}", log.join(" "), ans));
+                        answers.push(format!("q {} : {}", log.join(" "), ans));
                     }
                 }
-            }
-            "cq" => {
-                if !c_open { out.push("cq closed".into()); }
-                else {
-                    let a = crate::header::c_request(&format!("snow {}", t[1..].join(" ")));
-                    if a.starts_with("crash") { c_open = false; }
-                    out.push(format!("cq {}", a));
                 }
+                let last = answers.last().cloned().unwrap();
+                let same = answers.iter().all(|a| *a == last);
+                out.push(last);
+                if t[0] == "qn" { out.push(if same { "rep same".into() } else { format!("rep diff {}", answers.iter().filter(|a| **a != answers[answers.len() - 1]).count()) }); }
+            }
+            "cq" | "cqn" => {
+                let reps = if t[0] == "cqn" { parse_ints(&t[1..2])[0].max(1) } else { 1 };
+                let args = if t[0] == "cqn" { &t[2..] } else { &t[1..] };
+                let mut answers: Vec<String> = Vec::new();
+                for _ in 0..reps {
+                    if !c_open { answers.push("cq closed".into()); }
+                    else {
+                        let a = crate::header::c_request(&format!("snow {}", args.join(" ")));
+                        if a.starts_with("crash") { c_open = false; }
+                        answers.push(format!("cq {}", a));
+                    }
+                }
+                let last = answers.last().cloned().unwrap();
+                let same = answers.iter().all(|a| *a == last);
+                out.push(last);
+                if t[0] == "cqn" { out.push(if same { "rep same".into() } else { format!("rep diff {}", answers.iter().filter(|a| **a != answers[answers.len() - 1]).count()) }); }
             }
             _ => out.push("bad-op".into()),
         }
@@ -181,6 +211,15 @@ pub fn gen_case(rng: &mut Rng) -> String {
             }
             4 => if rng.chance(1, 3) { ops.push(format!("v {}", rng.pick(&[0i64, 0, 2, 65535]))); } else { ops.push("v 1".into()); },
             5 => ops.push(rng.pick(&["o", "co", "o"]).to_string()),
+            6 if rng.chance(1, 3) => { // the file at the path is replaced by another inode (odd, zero or even generation)
+                let g = match rng.below(3) { 0 => rng.range(0, 32767) * 2 + 1, 1 => 0, _ => rng.range(1, 32767) * 2 };
+                ops.push(format!("x {} {} 0 {} 0 777 1000 1", g, mono_now.0 + 50, mono_now.0 + 1050));
+            }
+            7 if rng.chance(1, 3) => { // the same question many times in a row
+                let mut tmp = Vec::new(); gen_query(rng, &rec, &mut mono_now, &mut tmp);
+                let n = rng.pick(&[2i64, 17, 1023, 1024, 1025, 2100]);
+                for q in tmp { let (k, rest) = q.split_once(' ').unwrap(); ops.push(format!("{}n {} {}", k, n, rest)); }
+            }
             _ => gen_query(rng, &rec, &mut mono_now, &mut ops),
         }
     }
@@ -210,6 +249,10 @@ pub fn grid() -> Vec<String> {
     v.push(format!("session w 100 0 1100 0 10000 50000 1 ; o ; co ; {} ; g 5 ; {} ; {} ; {}", q(100, 5), q(104, 0), q(106, 0), q(1101, 0)));
     // publications between calls, the same generation value never reused; re-open in the middle
     v.push(format!("session w 100 0 1100 0 10000 50000 1 ; o ; co ; {} ; w 101 0 1101 0 20000 50000 2 ; {} ; o ; co ; {} ; w 102 0 1102 0 30000 50000 0 ; {} ; w 103 0 1103 0 5 1000 1 ; {}", q(100, 5), q(101, 5), q(101, 6), q(102, 6), q(103, 7)));
+    // the path gets a new inode (frozen mid-update: odd generation) under attached clients, which are then asked
+    // thousands of times: they stay on the segment they mapped and keep (and age) what they had
+    v.push(format!("session w 100 0 1100 0 10000 50000 1 ; o ; co ; {} ; x 3 200 0 1200 0 777 1000 1 ; qn 2100 1700000000 5 101 0 ; cqn 2100 1700000000 5 101 0 ; {} ; w 102 0 1102 0 9 1000 2 ; qn 1100 1700000000 5 102 5 ; cqn 1100 1700000000 5 102 5", q(100, 5), q(101, 1)));
+    v.push(format!("session w 100 0 1100 0 10000 50000 1 ; o ; co ; {} ; x 8 200 0 1200 0 777 1000 1 ; qn 2100 1700000000 5 101 0 ; cqn 2100 1700000000 5 101 0 ; o ; co ; {}", q(100, 5), q(201, 0)));
     // no publication yet: open must fail (generation 0)
     v.push(format!("session o ; co ; {} ; w 100 0 1100 0 10000 50000 1 ; o ; co ; {}", q(100, 5), q(100, 6)));
     v
